@@ -203,6 +203,22 @@ var goodFlags = [][]string{{}, {"-generate-unsafe"}, {"-private-definitions"}, {
 // destination follows.
 const symlinkMark = "\x00symlink->"
 
+var constructSnippets = []string{
+	"[flags]\nenum F { A = 1; B = 2; C = A | B; }\n",
+	"[flags]\nenum F : uint8 { A = 1; B = 1 << 3; }\n",
+	"enum Plain { A = 1; }\n[flags]\nenum F1 { X = 1; }\n[flags]\nenum F2 { Y = 2; Z = X2; }\n",
+	"enum E : uint8 { A = 1; B = 2; }\nenum W : int64 { Lo = -9223372036854775808; }\n",
+	"struct G { int32[][] grid; byte[][][] cube; array[array[string]] names; }\n",
+	"message M { 1 -> map[string, int32[]] m; 2 -> map[guid, map[uint8, date]] mm; }\n",
+	"readonly struct R { guid id; }\n[opcode(\"ABCD\")]\nstruct O { int32 a; }\n[opcode(0x12345678)]\nmessage P { 1 -> bool b; }\n",
+	"struct D {\n    [deprecated(\"gone\")]\n    int32 old;\n    int32 now;\n}\n",
+	"const float64 kInf = -inf;\nconst string kQ = \"a\\\"b\";\nconst uint64 kBig = 18446744073709551615;\nstruct AfterConsts { byte b; }\n",
+	"struct A { int32 a; } struct B { int32 b; }\n",
+	"/* leading block */\nstruct C1 { /* inline */ int32 a; // trailing\n}\n",
+	"union U { 1 -> struct UA { int32 a; } 2 -> message UB { 1 -> string s; } }\n",
+	"struct Empty {}\nmessage EmptyM {}\nunion EmptyU {}\n",
+}
+
 const oldOutput = "// previously generated; must survive a failed run\npackage old\n"
 
 func runC19(c *Ctx) *Replay {
@@ -240,10 +256,34 @@ func runC19(c *Ctx) *Replay {
 	class := []string{"valid", "valid", "syntax-error", "validation-error", "import", "import-missing", "import-paths", "symlinks", "degenerate"}[r.Intn(9)]
 	if r.Chance(1, 24) {
 		class = "large"
+	} else if r.Chance(1, 8) {
+		class = "constructs"
+	}
+	// the first runs of a batch enumerate the construct snippets: each one through
+	// `bebopfmt -w <file>`, bare and behind a struct, and through bebopc-go
+	forced := -1
+	if c.Run < 3*len(constructSnippets) {
+		class, forced = "constructs", c.Run
 	}
 	text := valid
 	pre := "" // directory of the files the tool is pointed at
 	switch class {
+	case "constructs":
+		// small files built around ONE language construct each (attributes, typed enums,
+		// nested arrays, odd literals, two definitions on a line), alone or behind a struct:
+		// whatever the formatter makes of them, a successful -w must keep what they mean
+		text = constructSnippets[r.Intn(len(constructSnippets))]
+		lead, trail := r.Bool(), r.Chance(1, 3)
+		if forced >= 0 {
+			text = constructSnippets[forced%len(constructSnippets)]
+			lead, trail = forced/len(constructSnippets) == 1, false
+		}
+		if lead {
+			text = "struct Lead { int32 a; string b; }\n" + text
+		}
+		if trail {
+			text += "message Trail { 1 -> int32 x; }\n"
+		}
 	case "large":
 		// a LARGE schema file: remarks bring it to about 64 KiB, 1 MiB or 2 MiB, and
 		// definitions follow BEHIND the padding (whatever a tool does with the first so many
@@ -321,7 +361,7 @@ func runC19(c *Ctx) *Replay {
 				}
 			}
 		}
-	} else if r.Bool() {
+	} else if (forced < 0 && r.Bool()) || forced/len(constructSnippets) == 2 {
 		sc.Extra["tool"] = "bebopc-go"
 		sc.Files[pre+"in.bop"] = text
 		sc.Files[pre+"out.go"] = oldOutput
@@ -339,7 +379,11 @@ func runC19(c *Ctx) *Replay {
 		}
 	} else {
 		sc.Extra["tool"] = "bebopfmt"
-		switch r.Intn(3) {
+		mode := r.Intn(3)
+		if forced >= 0 {
+			mode = 0
+		}
+		switch mode {
 		case 0:
 			sc.Files[pre+"a.bop"] = text
 			sc.Args = []string{"-w", pre + "a.bop"}
@@ -357,7 +401,7 @@ func runC19(c *Ctx) *Replay {
 			sc.Args = []string{"-w", pre + "a.bop", pre + "b.bop"}
 			sc.Extra["targets"] = pre + "a.bop," + pre + "b.bop"
 		}
-		if r.Chance(1, 5) {
+		if r.Chance(1, 5) && forced < 0 {
 			// stdout mode: nothing may be rewritten at all
 			sc.Args = sc.Args[1:]
 			sc.Extra["stdout_mode"] = "1"
@@ -375,7 +419,7 @@ func runC19(c *Ctx) *Replay {
 		// a whole directory is formatted: the imported file in it is a target like the others
 		sc.Extra["targets"] += "," + textDir + "impx.bop"
 	}
-	c.Log("C19", sc.Extra["tool"], class, p.ID)
+	c.Log("C19", sc.Extra["tool"], class, p.ID, clipStr(strings.ReplaceAll(text, "\n", " "), 60), sc.Args)
 	// fault-free run: judged itself, and gives the operation list
 	base := cloneScenario(&sc)
 	viol := execCLI(c.N, &base)
